@@ -584,10 +584,10 @@ func (w *World) emit(ev string, a, r map[string]any) *Event {
 		r = map[string]any{"ok": true}
 	}
 	a["fault"] = w.Fault
-	h := map[string]any{"used": false, "status": 0, "code": 0, "shape": "ok", "errbody": true, "dbcalls": 0, "generic": false, "path": "", "cachehit": false}
+	h := map[string]any{"used": false, "status": 0, "code": 0, "shape": "ok", "errbody": true, "dbcalls": 0, "generic": false, "path": "", "cachehit": false, "leak": false}
 	if f := w.lastHTTP; f != nil {
 		h = map[string]any{"used": true, "status": f.Status, "code": f.Code, "shape": f.Shape, "errbody": f.ErrBody || f.Status == 200, "dbcalls": f.DBCalls,
-			"generic": f.Detail == "mint is currently unable to process request" || f.Detail == "unable to send payment", "path": f.Path, "cachehit": f.CacheHit}
+			"generic": f.Detail == "mint is currently unable to process request" || f.Detail == "unable to send payment", "path": f.Path, "cachehit": f.CacheHit, "leak": f.Leak}
 		if f.Path == "/v1/swap" || f.Path == "/v1/mint/bolt11" {
 			if f.Status == 200 {
 				w.lastOKReq = f
